@@ -410,7 +410,7 @@ def run(pid, tier, seed):
     t0 = time.time()
     if vwidth("\tab\tc") != 9:
         raise core.HarnessError("width self-test failed")
-    shards, n = (8, 12) if tier == "quick" else (16, 250)
+    shards, n = (16, 25) if tier == "quick" else (16, 250)
     camp = core.Campaign()
     for name, rc in core.regress_cases(pid):
         for k, what in replay(pid, rc["case"]):
